@@ -19,7 +19,7 @@ func init() {
 	Register(&Rule{
 		ID:    "R-MAPKEY",
 		Doc:   "for every string-keyed map stored in a struct field of the repository that is both updated and consulted: the key of each MapUpdate and of each Lookup is classified by backward flow (conversions, slices, φ) as lower-cased (it passes through strings.ToLower / appendToLower) or as-written; all updates and all lookups of one field must have the same class, and json.structType must keep one index of each class",
-		Props: []string{"C02", "C14", "C19"},
+		Props: []string{"C02", "C14", "C19", "C04"},
 		Min:   map[string]int{"C02": 2, "C14": 2, "C19": 1},
 		Run:   runMapKey,
 	})
